@@ -24,6 +24,12 @@ non-atomic payload (the `Inner` box: value + allocation), `n` threads.
   asynchronous channel is the composition of two rendezvous through a relay thread, and the
   theorems hold for every number of threads) joins the sender's view and coherence index
   into the receiver's.
+* A handle may also be used BY REFERENCE from other threads (`Arc`-backed values are `Sync`):
+  `borrow t u` gives thread `t` a shared reference to a handle of `u` (`refs`), through which
+  `t` may `read`, `clone` and `count`; while references are out the lender is `pinned`: it keeps
+  the handle and only uses `&self` methods itself.  `borrow`/`unborrow` synchronise like
+  spawning / joining a scoped thread.  A lent handle counts once in the share count however
+  many threads use it.
 * Thread actions: `read`, `clone` (`incr`; on `Overflow` a deep copy = a read of the payload),
   `drop` (`decr`; on `Overflow` free the box), `mutate` (`is_unique`, then write if true),
   `unwrap` (`is_unique`, then take the box if true), `count` (`get`).  The counter methods are
@@ -91,6 +97,9 @@ structure Thread where
   pc : Option Pc
   /-- results of the finished actions, in program order (observable outcome) -/
   res : List Nat
+  /-- shared references (`&handle`) this thread currently holds to a handle of the listed
+  threads (scoped threads / `Arc<HipStr>`): the thread may `read`, `clone`, `count` through them -/
+  refs : List Nat := []
   deriving DecidableEq, Repr, Inhabited, Hashable
 
 structure State where
@@ -120,6 +129,10 @@ structure Cfg where
   ceil : Nat
   proto : Proto
 
+/-- Some thread holds a shared reference to a handle of thread `u`: `u` must keep that handle
+alive and may only use its handles through `&self` methods until the references are returned. -/
+def pinned (s : State) (u : Nat) : Bool := s.thr.any fun wh => wh.refs.contains u
+
 /-- Message at modification-order index `i` (`i ≥ hist.length` is the last one). -/
 def State.msgAt (s : State) (i : Nat) : Msg := s.hist[i]?.getD s.last
 
@@ -139,6 +152,8 @@ def norm (ceil : Nat) (code : List AStep) (old : Nat) : List AStep :=
   match code with
   | .branch c n thn rt els re :: _ =>
       if c.eval old (n.eval ceil) then armCode thn rt else armCode els re
+  | .guard c n thn r :: rest =>
+      if c.eval old (n.eval ceil) then armCode thn r else norm ceil rest old
   | code => code
 
 /-- If only fences remain before the `return`, the value that will be returned. -/
@@ -244,31 +259,51 @@ inductive Action where
 
 /-- Scheduler choices.  `micro t ch`: thread `t` executes the next step of its in-flight
 method; `ch` selects the message read by a `load` (its index), and for a CAS attempt `0` =
-success, `i + 1` = failure reading message `i`.  `send t u`: `t` hands one handle to `u`. -/
+success, `i + 1` = failure reading message `i`.  `send t u`: `t` hands one handle to `u`.
+`read`, `clone`, `count` (the `&self` methods) may be started on an own handle or through a
+borrowed reference; `drop`, `mutate`, `unwrap`, `send` need an own handle and are not available
+to a thread while one of its handles is lent out (`pinned`). -/
 inductive Label where
   | start (t : Nat) (a : Action)
   | micro (t : Nat) (ch : Nat)
   | send (t u : Nat)
+  /-- thread `u` lends a shared reference to one of its handles to thread `t` (e.g. spawns a
+  scoped thread borrowing `&h`): synchronises `u → t` -/
+  | borrow (t u : Nat)
+  /-- thread `t` gives the reference back to `u` (e.g. `u` joins the scoped thread):
+  synchronises `t → u` -/
+  | unborrow (t u : Nat)
   deriving DecidableEq, Repr, Inhabited, Hashable
 
 /-- Begin the counter method `code` for action `k`. -/
 def begin (c : Cfg) (s : State) (t : Nat) (th : Thread) (k : Kont) (code : List AStep) : State :=
   { s with thr := s.thr.set t { th with pc := some ⟨k, norm c.ceil code 0, 0⟩ } }
 
+/-- The thread can call a `&self` method: it owns a handle or holds a shared reference. -/
+def canUse (th : Thread) : Bool := th.handles != 0 || !th.refs.isEmpty
+
+/-- The thread can call a `&mut self` / `self` method: it owns a handle and none is lent out. -/
+def canOwn (s : State) (t : Nat) (th : Thread) : Bool := th.handles != 0 && !pinned s t
+
 def startStep (c : Cfg) (s : State) (t : Nat) (a : Action) : Option State :=
   match s.thr[t]? with
   | none => none
   | some th =>
-    if th.pc.isSome || th.handles == 0 then none else
+    if th.pc.isSome then none else
     match a with
     | .read =>
-        let th' := tick th t
-        some { payRead s t th'.view with thr := s.thr.set t { th' with res := th.res ++ [s.pval] } }
-    | .clone => some (begin c s t th .clone c.proto.incr)
-    | .drop => some (begin c s t { th with handles := th.handles - 1 } .drop c.proto.decr)
-    | .mutate => some (begin c s t th .mutate c.proto.isUnique)
-    | .unwrap => some (begin c s t th .unwrap c.proto.isUnique)
-    | .count => some (begin c s t th .count c.proto.get)
+        if canUse th then
+          let th' := tick th t
+          some { payRead s t th'.view with thr := s.thr.set t { th' with res := th.res ++ [s.pval] } }
+        else none
+    | .clone => if canUse th then some (begin c s t th .clone c.proto.incr) else none
+    | .count => if canUse th then some (begin c s t th .count c.proto.get) else none
+    | .drop =>
+        if canOwn s t th then
+          some (begin c s t { th with handles := th.handles - 1 } .drop c.proto.decr)
+        else none
+    | .mutate => if canOwn s t th then some (begin c s t th .mutate c.proto.isUnique) else none
+    | .unwrap => if canOwn s t th then some (begin c s t th .unwrap c.proto.isUnique) else none
 
 def microStep (c : Cfg) (s : State) (t : Nat) (ch : Nat) : Option State :=
   match s.thr[t]? with
@@ -324,6 +359,10 @@ def microStep (c : Cfg) (s : State) (t : Nat) (ch : Nat) : Option State :=
           if ch = 0 then
             some (doStore s t th o (wrapSub c.ceil pc.old k) ⟨pc.k, norm c.ceil rest pc.old, pc.old⟩)
           else none
+      | .simple (.storeLit v o) :: rest =>
+          if ch = 0 then
+            some (doStore s t th o v ⟨pc.k, norm c.ceil rest pc.old, pc.old⟩)
+          else none
       | .simple (.rmwSub n o) :: rest =>
           if ch = 0 then
             some (doRmw s t th o (wrapSub c.ceil s.last.val n) ⟨pc.k, norm c.ceil rest pc.old, pc.old⟩)
@@ -331,6 +370,10 @@ def microStep (c : Cfg) (s : State) (t : Nat) (ch : Nat) : Option State :=
       | .simple (.rmwAdd n o) :: rest =>
           if ch = 0 then
             some (doRmw s t th o (wrapAdd c.ceil s.last.val n) ⟨pc.k, norm c.ceil rest pc.old, pc.old⟩)
+          else none
+      | .guard .. :: _ =>
+          if ch = 0 then
+            some { s with thr := s.thr.set t { th with pc := some ⟨pc.k, norm c.ceil pc.code pc.old, pc.old⟩ } }
           else none
       | .branch .. :: _ =>
           if ch = 0 then
@@ -342,10 +385,28 @@ def microStep (c : Cfg) (s : State) (t : Nat) (ch : Nat) : Option State :=
 def sendStep (s : State) (t u : Nat) : Option State :=
   match s.thr[t]?, s.thr[u]? with
   | some th, some uh =>
-      if t = u || th.pc.isSome || uh.pc.isSome || th.handles == 0 then none else
+      if t = u || th.pc.isSome || uh.pc.isSome || !canOwn s t th then none else
       let th' : Thread := { th with handles := th.handles - 1 }
       let uh' : Thread :=
         { uh with handles := uh.handles + 1, view := vjoin uh.view th.view, coh := max uh.coh th.coh }
+      some { s with thr := (s.thr.set t th').set u uh' }
+  | _, _ => none
+
+def borrowStep (s : State) (t u : Nat) : Option State :=
+  match s.thr[t]?, s.thr[u]? with
+  | some th, some uh =>
+      if t = u || th.pc.isSome || uh.pc.isSome || uh.handles == 0 then none else
+      let th' : Thread :=
+        { th with refs := u :: th.refs, view := vjoin th.view uh.view, coh := max th.coh uh.coh }
+      some { s with thr := s.thr.set t th' }
+  | _, _ => none
+
+def unborrowStep (s : State) (t u : Nat) : Option State :=
+  match s.thr[t]?, s.thr[u]? with
+  | some th, some uh =>
+      if t = u || th.pc.isSome || uh.pc.isSome || !th.refs.contains u then none else
+      let th' : Thread := { th with refs := th.refs.erase u }
+      let uh' : Thread := { uh with view := vjoin uh.view th.view, coh := max uh.coh th.coh }
       some { s with thr := (s.thr.set t th').set u uh' }
   | _, _ => none
 
@@ -354,6 +415,8 @@ def step (c : Cfg) (s : State) : Label → Option State
   | .start t a => startStep c s t a
   | .micro t ch => microStep c s t ch
   | .send t u => sendStep s t u
+  | .borrow t u => borrowStep s t u
+  | .unborrow t u => unborrowStep s t u
 
 /-- Run a whole schedule (`none` when some choice is not enabled). -/
 def run (c : Cfg) (s : State) : List Label → Option State
@@ -364,7 +427,7 @@ def run (c : Cfg) (s : State) : List Label → Option State
 
 /-- A fresh thread holding `h` handles. -/
 def Thread.init (h : Nat) : Thread :=
-  { handles := h, view := [], pend := [], coh := 0, pc := none, res := [] }
+  { handles := h, view := [], pend := [], coh := 0, pc := none, res := [], refs := [] }
 
 /-- Initial state: thread `i` holds `hs[i]` handles to one buffer created (and handed out,
 with synchronisation) before the threads start; the count stores `shares - 1`. -/
@@ -434,6 +497,11 @@ def getShape (p : Proto) : Bool :=
   match p.get with
   | [.load _, .ret (.oldPlus _)] => true
   | _ => false
+
+/-- Source sites of the rows of `code` that contain a plain `store` (falsifying rows of
+`noPlainStore`), given the per-row sites emitted by the translator. -/
+def storeSites (code : List AStep) (sites : List String) : List String :=
+  ((code.zip sites).filter fun p => p.1.hasStore).map (·.2)
 
 /-- The named side conditions, for the driver's `obligations` command (`one` = the value a
 fresh counter is created with; `incr_bound_le_ceil` is shown for `ceil = 10`). -/
